@@ -26,8 +26,9 @@ def tie_grids(ctx):
     for kind in (P1, P2):
         for k in range(1, kmax + 1):
             combos = list(itertools.product(range(len(vals)), repeat=k))
-            if ctx.quick and len(combos) > 160:
-                combos = ctx.rng.sample(combos, 160)
+            cap = 160 if ctx.quick else 2500
+            if len(combos) > cap:
+                combos = ctx.rng.sample(combos, cap)
             for combo in combos:
                 n = k + 3
                 F, S = k + 1, k + 2
